@@ -414,8 +414,14 @@ class Multi:
                 files.append({'vars': vars_, 'attrs': {}})
             align = differ or rng.random() < 0.3
             stats['multi'][mode + ('/align' if align else '') + ('/differ' if differ else '')] += 1
+            jkeys = None
+            if mode == 'existing' and rng.random() < 0.5:
+                # keys= along an EXISTING axis: the joined axis is then reindexed onto them (that axis, wherever it sits in the variables)
+                alll = [x + 100 * (i + 1) for i in range(nf) for x in pool[jax][1]]
+                if alll:
+                    jkeys = rng.sample(alll, rng.randint(1, min(3, len(alll)))); stats['multi']['existing+keys'] += 1
             cases.append({'files': files, 'axis': jax, 'mode': mode, 'align': align, 'sort': rng.random() < 0.4,
-                          'keys': [10 * (i + 1) for i in range(nf)] if mode == 'new' and rng.random() < 0.7 else None,
+                          'keys': jkeys if mode == 'existing' else ([10 * (i + 1) for i in range(nf)] if rng.random() < 0.7 else None),
                           'name': rng.choice([None, keys[0]])})
         return cases
 
@@ -439,6 +445,7 @@ class Multi:
                     dss = [D.read_nc(fn) for fn in fns]
                     if c['mode'] == 'existing':
                         r = D.concatenate_ds(dss, axis=c['axis'], align=c['align'], sort=c['sort'])
+                        if c['keys'] is not None: r = r.reindex_axis(c['keys'], axis=c['axis'])
                     else:
                         keys = c['keys'] if c['keys'] is not None else [os.path.splitext(fn)[0] for fn in fns]
                         r = D.stack_ds(dss, axis=c['axis'], keys=keys, align=c['align'], sort=c['sort'])
